@@ -55,20 +55,115 @@ def rust_items(src: str) -> List[str]:
     return items
 
 
+def build_commands(repo: str) -> Tuple[List[List[str]], str]:
+    """The generator invocations of the documented build path: every `session.run("python", "-m", "generator", ...)` with constant
+    arguments in noxfile.py's build_lsp session and the functions it (transitively) calls, in call order."""
+    path = os.path.join(repo, "noxfile.py")
+    try:
+        tree = ast.parse(open(path, encoding="utf-8").read())
+    except (OSError, SyntaxError) as e:
+        return [], f"noxfile.py unreadable ({e})"
+    funcs = {n.name: n for n in tree.body if isinstance(n, ast.FunctionDef)}
+    if "build_lsp" not in funcs:
+        return [], "noxfile.py has no build_lsp session"
+    cmds: List[List[str]] = []
+    seen = set()
+
+    # ast.walk is breadth-first: order calls by source position instead
+    def ordered(fn):
+        calls = sorted((n for n in ast.walk(fn) if isinstance(n, ast.Call)), key=lambda n: (n.lineno, n.col_offset))
+        return calls
+
+    def visit2(fn):
+        if fn.name in seen:
+            return
+        seen.add(fn.name)
+        for node in ordered(fn):
+            f = node.func
+            if isinstance(f, ast.Name) and f.id in funcs:
+                visit2(funcs[f.id])
+            elif isinstance(f, ast.Attribute) and f.attr == "run" and node.args and all(isinstance(a, ast.Constant) and isinstance(a.value, str) for a in node.args):
+                args = [a.value for a in node.args]
+                if args[:3] == ["python", "-m", "generator"]:
+                    cmds.append(args[3:])
+
+    visit2(funcs["build_lsp"])
+    return cmds, "noxfile.py: build_lsp -> " + ", ".join(sorted(seen - {"build_lsp"}))
+
+
+def plugins_of(args: List[str]) -> List[str]:
+    out = []
+    if "--plugin" in args:
+        for a in args[args.index("--plugin") + 1 :]:
+            if a.startswith("-"):
+                break
+            out.append(a)
+    return out
+
+
+def run_build_command(args: List[str], out_dir: str, repo: str) -> Tuple[int, str]:
+    """Run one build-path invocation with its output redirected to out_dir (the only change made to the command)."""
+    clean = []
+    skip = False
+    for a in args:
+        if skip:
+            skip = False
+            continue
+        if a in ("--output-dir", "-o", "--test-dir", "-t"):
+            skip = True
+            continue
+        clean.append(a)
+    td = os.path.join(out_dir, "__tests__")
+    os.makedirs(td, exist_ok=True)
+    env = dict(os.environ, PYTHONPATH=repo, PYTHONDONTWRITEBYTECODE="1")
+    env.pop("PYTHONHASHSEED", None)
+    try:
+        p = subprocess.run([gen.PY, "-m", "generator"] + clean + ["--output-dir", out_dir, "--test-dir", td], cwd=repo, env=env, capture_output=True, text=True, timeout=900)
+        return p.returncode, (p.stdout + p.stderr)[-3000:]
+    except subprocess.TimeoutExpired:
+        return 124, "timeout"
+
+
+def find_file(root: str, tail: str) -> str:
+    hits = []
+    for dp, dn, fn in os.walk(root):
+        for f in fn:
+            pth = os.path.join(dp, f)
+            if pth.replace(os.sep, "/").endswith(tail):
+                hits.append(pth)
+    return sorted(hits, key=len)[0] if hits else ""
+
+
 def main(argv: List[str]) -> int:
     run = Run("C05", "translation_validation", argv)
     REPO = gen.REPO
     tmp = gen.scratch()
+    cmds, how = build_commands(REPO)
+    if not any("python" in plugins_of(c) for c in cmds) or not any("rust" in plugins_of(c) for c in cmds):
+        run.notes.append(f"no python / rust generator invocation found on the build path ({how}); falling back to `--plugin python` and `--plugin rust`")
+        cmds = [["--plugin", "python"], ["--plugin", "rust"]]
+        how = "fallback"
+    outs: Dict[str, Tuple[int, str, str]] = {}
+    for ci, c in enumerate(cmds):
+        pl = plugins_of(c)
+        if not ({"python", "rust"} & set(pl)):
+            continue
+        od = os.path.join(tmp, f"cmd{ci}")
+        rc_, log_ = run_build_command(c, od, REPO)
+        for p_ in pl:
+            if p_ in ("python", "rust") and p_ not in outs:
+                outs[p_] = (rc_, log_, od)
     samples: List[Any] = []
     disagreements = 0
     programs = 0
     try:
         # ------------------------------------------------------------------ python
-        rc, out, dt = gen.run_plugin("python", os.path.join(tmp, "py"))
-        if rc != 0:
-            run.violation("regen:python:plugin-exit", f"python plugin exits {rc} on the committed model", {"output": out}, True)
+        rc, out, pyroot = outs["python"]
+        gen_types = find_file(pyroot, "lsprotocol/types.py") if rc == 0 else ""
+        if rc != 0 or not gen_types:
+            run.violation("regen:python:plugin-exit", f"the build path's python generator command exits {rc}" + ("" if rc else " without writing lsprotocol/types.py") + " on the committed model", {"output": out, "commands": cmds}, True)
         else:
-            gen_src = open(os.path.join(tmp, "py", "lsprotocol", "types.py"), encoding="utf-8").read()
+            gen_src = open(gen_types, encoding="utf-8").read()
             com_src = open(os.path.join(REPO, TYPES), encoding="utf-8").read()
             g, c = stmts(gen_src), stmts(com_src)
             programs += 1
@@ -82,16 +177,16 @@ def main(argv: List[str]) -> int:
                     run.violation(
                         f"regen:python:stmt:{ci[0] or gi[0]}",
                         f"types.py statement #{i} ({ci[0]} committed / {gi[0]} generated): {which}",
-                        {"index": i, "committed": (ci[1] or "")[:1500], "generated": (gi[1] or "")[:1500], "counts": [len(c), len(g)], "replay": "python -m generator --plugin python --output-dir <scratch>; compare ast.dump of top-level statements after docstring whitespace normalisation"},
+                        {"index": i, "committed": (ci[1] or "")[:1500], "generated": (gi[1] or "")[:1500], "counts": [len(c), len(g)], "replay": "the build path's python generator command (see build_commands in the evidence) with --output-dir <scratch>; compare ast.dump of top-level statements after docstring whitespace normalisation"},
                         True,
                     )
                     break
         # ------------------------------------------------------------------ rust
-        rc, out, dt = gen.run_plugin("rust", os.path.join(tmp, "rs"))
-        if rc != 0:
-            run.violation("regen:rust:plugin-exit", f"rust plugin exits {rc} on the committed model", {"output": out}, True)
+        rc, out, rsroot = outs["rust"]
+        gen_path = find_file(rsroot, "lsprotocol/src/lib.rs") if rc == 0 else ""
+        if rc != 0 or not gen_path:
+            run.violation("regen:rust:plugin-exit", f"the build path's rust generator command exits {rc}" + ("" if rc else " without writing lsprotocol/src/lib.rs") + " on the committed model", {"output": out, "commands": cmds}, True)
         else:
-            gen_path = os.path.join(tmp, "rs", "lsprotocol", "src", "lib.rs")
             edition = "2021"
             try:
                 m = re.search(r'^edition\s*=\s*"(\d+)"', open(os.path.join(REPO, CARGO)).read(), re.M)
@@ -118,20 +213,22 @@ def main(argv: List[str]) -> int:
                     run.violation(
                         f"regen:rust:item:{ident.group(0).strip() if ident else k}",
                         f"lib.rs differs from the generator's output after rustfmt at item #{k}",
-                        {"index": k, "committed": a[:1500], "generated": b[:1500], "counts": [len(ci), len(gi)], "replay": "python -m generator --plugin rust; rustfmt --edition <Cargo.toml>; byte compare"},
+                        {"index": k, "committed": a[:1500], "generated": b[:1500], "counts": [len(ci), len(gi)], "replay": "the build path's rust generator command (see build_commands in the evidence); rustfmt --edition <Cargo.toml>; byte compare"},
                         True,
                     )
     finally:
         shutil.rmtree(tmp, ignore_errors=True)
     if programs == 0 and not run.violations:
         run.crash("nothing compared")
-    run.assume("rustfmt 1.9 is the formatter pass of the build for Rust; for Python the formatter changes docstring whitespace only (ast equality otherwise)", "the plugins are run as `python -m generator` from the current working tree with PYTHONPATH=/repo")
+    run.assume("rustfmt 1.9 is the formatter pass of the build for Rust; for Python the formatter changes docstring whitespace only (ast equality otherwise)", "the generator commands are the `python -m generator ...` invocations of noxfile.py's build_lsp session and its callees, taken from the noxfile's AST on every run (the only change: --output-dir / --test-dir point at scratch directories); run from the current working tree with PYTHONPATH=<tree>")
     return run.finish(
         {
             "programs": max(programs, 1),
             "disagreements_checked": disagreements,
             "samples": samples or [{"note": "comparison did not run"}],
             "exhaustive": True,
+            "build_commands": [" ".join(["python", "-m", "generator"] + c) for c in cmds],
+            "build_commands_from": how,
             "explanation": "run-time evaluation of the postcondition 'output == committed file (mod formatter)' on the single configuration the property quantifies over",
         }
     )
